@@ -203,9 +203,18 @@ def execute(trace, ctx):
         ctx.probe("inv_flag")
         if abs(gi - got) > tol:
             ctx.violate(P, "inverse-flag", f"with box: {got!r}, with inverse box and inv=True: {gi!r}")
-        # invariance under an explicit lattice shift of the argument (every non-singular box)
-        if last_jump is not None:
-            pass
+        # invariance under an explicit lattice shift of the argument (every non-singular box): the shifted point is computed
+        # HERE (not by the library's move) and handed over as a bare point
+        nvec = np.array([(1, -2, 3), (-3, 0, 1), (0, 2, -1), (2, 3, -3)][int(abs(d[0]) * 1e6) % 4], dtype=float)
+        p_plain = float(r[0].distance_to(c1.copy(), box_vects=box.copy()))
+        p_shift = float(r[0].distance_to(c1 + nvec @ box, box_vects=box.copy()))
+        if abs(p_plain - got) > tol:
+            ctx.violate(P, "point-vs-residue", f"distance to the residue {got!r}, to its geometric centre as a point {p_plain!r}")
+        shift_scale = max(scale, 4 * float(np.max(np.abs(box))))
+        if abs(p_shift - p_plain) > 1e-9 * shift_scale:
+            ctx.violate(P, "lattice-shift", f"point shifted by {nvec.tolist()} box vectors: periodic distance {p_shift!r}, unshifted "
+                                            f"{p_plain!r} (box {box.tolist()})", key="point")
+        ctx.probe("lattice_shift_of_a_bare_point")
         ctx.op(tag, outcome)
         return got
 
